@@ -19,8 +19,10 @@ theorem sites_accounted : inventory = Carried.guardSites := by decide +kernel
 theorem model_keys_inventoried : Carried.modelKeys.all (fun k => (Carried.guardSites.map (·.1)).contains k) = true :=
   ca_all_keys
 
-/-- the sites carried without a model operation are exactly the 2 internal checks of format_to -/
-theorem unmodelled_count : Carried.unmodelled.length = 2 := ca_unmodelled
+/-- the sites carried without a model operation are the 2 internal checks of format_to and, since fix 3da0a12 of branch
+    fix-c17x, the "value fits" contract of bitset::to_ulong / to_ullong (modelled and proved for C17:
+    `Tetl.C17.Props.toUnsigned_eq`, `toUnsigned_overflow`) -/
+theorem unmodelled_count : Carried.unmodelled.length = 3 := ca_unmodelled
 
 /-- operations whose equation model = spec is proved below: every operation of the model language (`Proved_all`).
     Kept as a function so that a new operation without a theorem has to be listed here explicitly. -/
